@@ -127,6 +127,106 @@ def _wrap_print_exception():
     return n
 
 
+# ----------------------------------------------------------------------------
+# on-disk cache of ANTLR parse trees (optimisation only; VERIF_PTCACHE=0 switches it off)
+# ----------------------------------------------------------------------------
+_PTCACHE_DIR = None
+
+
+def _ptcache_dir():
+    """scratch/ptcache/<key>: key covers everything that decides the parse tree of a text -- the
+    generated lexer/parser, parse_tree.py and the ANTLR runtime version of the tree under test."""
+    global _PTCACHE_DIR
+    if _PTCACHE_DIR is None:
+        import glob
+        import hashlib
+
+        h = hashlib.sha1()
+        files = sorted(glob.glob(os.path.join(REPO_SRC, "fandango", "language", "parser", "*.py")))
+        files += sorted(glob.glob(os.path.join(REPO_SRC, "fandango", "language", "parse", "parse_tree.py")))
+        for fn in files:
+            h.update(fn[len(REPO_SRC) :].encode())
+            with open(fn, "rb") as f:
+                h.update(f.read())
+        try:
+            import importlib.metadata as _md
+
+            h.update(_md.version("antlr4-python3-runtime").encode())
+        except Exception:
+            pass
+        d = os.path.join(VERIF_DIR, "scratch", "ptcache", h.hexdigest()[:16])
+        try:
+            os.makedirs(d, exist_ok=True)
+        except OSError:
+            d = ""
+        _PTCACHE_DIR = d
+    return _PTCACHE_DIR
+
+
+def _ptcache_load(text: str):
+    d = _ptcache_dir()
+    if not d:
+        return None
+    import hashlib
+    import pickle
+
+    fn = os.path.join(d, hashlib.sha1(text.encode("utf-8", "surrogatepass")).hexdigest() + ".pkl")
+    try:
+        with open(fn, "rb") as f:
+            src, tree = pickle.load(f)
+        return tree if src == text else None
+    except Exception:
+        return None
+
+
+def _ptcache_store(text: str, tree) -> None:
+    d = _ptcache_dir()
+    if not d:
+        return
+    import hashlib
+    import io
+    import pickle
+
+    from antlr4 import InputStream, Lexer, Parser
+    from antlr4.BufferedTokenStream import TokenStream
+    from antlr4.tree.Tree import TerminalNodeImpl
+
+    class _P(pickle.Pickler):
+        def reducer_override(self, obj):
+            # the tree keeps references to its parser, lexer and streams: not part of the result
+            if isinstance(obj, (Parser, Lexer, InputStream, TokenStream, io.IOBase)):
+                return (type(None), ())
+            return NotImplemented
+
+    try:
+        # token texts are read lazily from the input stream: materialise them first
+        stack = [tree]
+        while stack:
+            n = stack.pop()
+            if isinstance(n, TerminalNodeImpl):
+                toks = [n.symbol]
+            else:
+                toks = [getattr(n, "start", None), getattr(n, "stop", None)]
+                stack.extend(n.children or [])
+            for tok in toks:
+                if tok is not None and getattr(tok, "_text", 0) is None:
+                    tok._text = tok.text
+        buf = io.BytesIO()
+        old = sys.getrecursionlimit()
+        sys.setrecursionlimit(max(old, 20000))
+        try:
+            _P(buf, protocol=4).dump((text, tree))
+        finally:
+            sys.setrecursionlimit(old)
+        fn = os.path.join(d, hashlib.sha1(text.encode("utf-8", "surrogatepass")).hexdigest() + ".pkl")
+        tmp = "%s.%d.tmp" % (fn, os.getpid())
+        with open(tmp, "wb") as f:
+            f.write(buf.getvalue())
+        os.replace(tmp, fn)
+    except Exception:
+        pass
+
+
 def boot(quiet: bool = True):
     """Idempotent.  Returns the imported ``fandango`` package."""
     global _booted
@@ -158,6 +258,14 @@ def boot(quiet: bool = True):
     def memo_parse_tree(filename, fan_contents):
         key = fan_contents
         t = PARSE_TREE_MEMO.get(key)
+        if t is None and os.environ.get("VERIF_PTCACHE", "1") != "0":
+            t = _ptcache_load(fan_contents)
+            if t is not None:
+                PARSE_TREE_STATS["disk_hits"] = PARSE_TREE_STATS.get("disk_hits", 0) + 1
+                if len(PARSE_TREE_MEMO) > 5000:
+                    PARSE_TREE_MEMO.pop(next(iter(PARSE_TREE_MEMO)))
+                PARSE_TREE_MEMO[key] = t
+                return t
         if t is None:
             PARSE_TREE_STATS["misses"] += 1
             # the front end must see real time (it only logs durations)
@@ -179,6 +287,8 @@ def boot(quiet: bool = True):
             if len(PARSE_TREE_MEMO) > 5000:
                 PARSE_TREE_MEMO.pop(next(iter(PARSE_TREE_MEMO)))
             PARSE_TREE_MEMO[key] = t
+            if os.environ.get("VERIF_PTCACHE", "1") != "0":
+                _ptcache_store(fan_contents, t)
         else:
             PARSE_TREE_STATS["hits"] += 1
         return t
